@@ -42,6 +42,9 @@ def main():
             shutil.rmtree(tmp, ignore_errors=True)
     for r in rows:
         print(f"{r[0]:24s} {r[1]:4s} {r[2]:16s} {r[3]}")
+    if not ids and all_props:
+        json.dump([{"id": r[0], "property": r[1], "verdict": r[2], "caught": r[3] if isinstance(r[3], dict) else {}} for r in rows],
+                  open(os.path.join(HERE, "notes", "seeded_results.json"), "w"), indent=1)
     n = len(rows)
     c = sum(1 for r in rows if r[2] == "CAUGHT")
     print(f"{c}/{n} seeded changes caught by the check of their own property")
